@@ -117,7 +117,10 @@ def ljust (x : Str) (w : Int) (fill : Str) : Str :=
   x ++ List.replicate (w.toNat - x.length) (fill.headD 32)
 
 /-- `sep.join(parts)` -/
-def join (sep : Str) (parts : List Str) : Str := sep.intercalate parts
+def join (sep : Str) : List Str → Str
+  | [] => []
+  | [a] => a
+  | a :: b :: t => a ++ sep ++ join sep (b :: t)
 
 /-- `s * n` -/
 def repeatStr (x : Str) (n : Int) : Str := (List.replicate n.toNat x).flatten
